@@ -222,20 +222,34 @@ package obfs
 
 // the table: at most 4096 pending messages; the per-source counters are the census, at most
 // 8, and present only while positive
-//@ spec func tabOK(g) = g.reassembly != nil && g.perSource != nil && len(g.reassembly) <= 4096
+//@ spec func tabCnt(g) = g.reassembly != nil && g.perSource != nil && len(g.reassembly) <= 4096
 //@     && forallStr(a, srcCount(g, a) == sel(census, g, a) && srcCount(g, a) <= 8 && (indom(g.perSource, a) ==> g.perSource[a] >= 1))
-//@     && forallKey(q, g.reassembly, entryOK(g.reassembly[q]))
-// every pending entry has a chunk table of its declared size
+// every pending entry is incomplete and consistent: a chunk table of its declared size, received =
+// number of chunks present < total; different keys have different entries and chunk tables
 //@ spec func entryOK(e) = e != nil && len(e.chunks) == e.total
+//@     && e.received == cntR(row(e.chunks, "base"), off(e.chunks), len(e.chunks)) && e.received < e.total
+//@ spec func tabEnt(g) = forallKey(q, g.reassembly, entryOK(g.reassembly[q])) && tabInj(g)
+//@ spec func tabInj(g) = forallKey(q1, g.reassembly, forallKey(q2, g.reassembly, q1 != q2 ==> g.reassembly[q1] != g.reassembly[q2] && base(g.reassembly[q1].chunks) != base(g.reassembly[q2].chunks)))
+//@ spec func tabEntBut(g, e) = forallKey(q, g.reassembly, g.reassembly[q] != e ==> entryOK(g.reassembly[q])) && tabInj(g)
+//@ spec func tabOK(g) = tabCnt(g) && tabEnt(g)
+
+// proof hints where a chunk table is created / a chunk is stored
+//@ hook store reassemblyEntry.chunks(obj, v) in (*geckoPacketConn).acceptChunk
+//@   use CNTR_NIL(row(v, "base"), off(v), len(v))
+//@ hook elemstore []uint8(s, i, v) in (*geckoPacketConn).acceptChunk
+//@   use CNTR_BOUND(row(s, "base"), off(s), len(s))
+//@   use CNTR_HOLE(row(s, "base"), off(s), len(s), off(s) + i)
+//@   use CNTR_UPD(row(s, "base"), off(s), len(s), off(s) + i, base(v))
 
 // dropEntryLocked: removes exactly that key (if present) and gives its slot back to its source
 //@ func (*geckoPacketConn).dropEntryLocked
 //@   props C14 C03
 //@   nonil
-//@   requires muHeld && tabOK(g)
-//@   ensures muHeld && tabOK(g)
+//@   requires muHeld && tabCnt(g)
+//@   ensures muHeld && tabCnt(g)
 //@   ensures !indom(g.reassembly, k) && len(g.reassembly) == old(len(g.reassembly)) - ite(old(indom(g.reassembly, k)), 1, 0)
 //@   ensures forallKey(q, g.reassembly, old(indom(g.reassembly, q)) && g.reassembly[q] == old(g.reassembly[q]))
+//@   ensures forallStr(a, srcCount(g, a) <= old(srcCount(g, a)))
 //@   modifies mapof(g.reassembly), mapof(g.perSource), census
 
 //@ func (*geckoPacketConn).evictOldestLocked
@@ -245,6 +259,7 @@ package obfs
 //@   ensures muHeld && tabOK(g)
 //@   ensures old(len(g.reassembly)) >= 1 ==> len(g.reassembly) == old(len(g.reassembly)) - 1
 //@   ensures forallKey(q, g.reassembly, old(indom(g.reassembly, q)) && g.reassembly[q] == old(g.reassembly[q]))
+//@   ensures forallStr(a, srcCount(g, a) <= old(srcCount(g, a)))
 //@   modifies mapof(g.reassembly), mapof(g.perSource), census
 //@   loop 0
 //@     invariant muHeld && tabOK(g) && (first ==> forallKey(q, g.reassembly, !visited(g.reassembly, q))) && (!first ==> indom(g.reassembly, oldestKey))
@@ -254,24 +269,120 @@ package obfs
 //@   nonil
 //@   requires !muHeld && !isnil(addr) && h.totalChunks >= 2 && h.totalChunks <= 8 && h.chunkIdx < h.totalChunks
 //@   requires tabOK(g)
-//@   ensures !muHeld && tabOK(g)
+//@   ensures !muHeld && tabCnt(g)
+//@   ensures forallKey(q, g.reassembly, entryOK(g.reassembly[q]))
+//@   ensures tabInj(g)
 //@   ensures !ret1 ==> ret0 == nil
 //@   ensures ret1 ==> ret0 != nil && fresh(ret0)
-//@   modifies any
+//@   ensures ret1 ==> !indom(g.reassembly, mkkey(g.reassembly, pureStr("net.Addr.String", addr), h.msgID))
+//@   modifies mapof(g.reassembly), mapof(g.perSource), census, muHeld, region("obfs.reassemblyEntry.received"), region("elem<[]uint8>.base"), region("elem<[]uint8>.off"), region("elem<[]uint8>.len"), region("elem<[]uint8>.cap")
 //@   loop 0
 //@     invariant muHeld
-//@     invariant tabOK(g)
+//@     invariant tabCnt(g)
+//@     invariant tabEntBut(g, e)
+//@     invariant indom(g.reassembly, key) && g.reassembly[key] == e
 //@     invariant len(e.chunks) <= 255
+//@     invariant rangeindex + 1 <= len(e.chunks)
 //@     invariant total == sumR(row(e.chunks, "len"), off(e.chunks), rangeindex + 1)
 //@     invariant total >= 0
 //@     use SUMR_NONNEG(row(e.chunks, "len"), off(e.chunks), rangeindex + 2)
 //@     use SUMR_UB(row(e.chunks, "len"), off(e.chunks), rangeindex + 2)
 //@   loop 1
 //@     invariant muHeld
-//@     invariant tabOK(g)
+//@     invariant tabCnt(g)
+//@     invariant tabEntBut(g, e)
+//@     invariant indom(g.reassembly, key) && g.reassembly[key] == e
 //@     invariant fresh(out)
 //@     invariant len(out) == sumR(row(e.chunks, "len"), off(e.chunks), len(e.chunks))
 //@     invariant 0 <= off
 //@     invariant off == sumR(row(e.chunks, "len"), off(e.chunks), rangeindex + 1)
 //@     use SUMR_MONO(row(e.chunks, "len"), off(e.chunks), rangeindex + 1, len(e.chunks))
 //@     use SUMR_MONO(row(e.chunks, "len"), off(e.chunks), rangeindex + 2, len(e.chunks))
+
+// gcExpired: one sweep keeps the table invariant and leaves no entry whose deadline has passed
+//@ func (*geckoPacketConn).gcExpired
+//@   props C14 C03
+//@   nonil
+//@   requires !muHeld && tabOK(g)
+//@   ensures !muHeld && tabOK(g)
+//@   ensures forallKey(q, g.reassembly, !pureBool("(time.Time).After", now, *g.reassembly[q].deadline))
+//@   modifies any
+//@   loop 0
+//@     invariant muHeld
+//@     invariant tabOK(g)
+//@     invariant forallKey(q, g.reassembly, visited(g.reassembly, q) ==> !pureBool("(time.Time).After", now, *g.reassembly[q].deadline))
+
+// the receive loop: every datagram is either passed through (first bit clear), dropped
+// (malformed frame, incomplete message) or completes a message; nothing panics
+//@ func (*geckoPacketConn).ReadFrom
+//@   props C14 C03
+//@   nonil
+//@   requires !muHeld && tabOK(g)
+//@   ensures !muHeld && tabOK(g) && ret0 <= len(p) && (isnil(ret2) ==> ret0 >= 0)
+//@   modifies any
+//@   loop 0
+//@     invariant !muHeld
+//@     invariant tabOK(g)
+//@     invariant len(buf) == 2048 && g.inner != nil
+
+// ---------------------------------------------------------------------------
+// Gecko send path (C14, C03): a long-header packet is cut into `chunks` consecutive pieces
+// (the last one takes the remainder), each sent as one frame with its index; whenever a
+// piece can fit, salt + header + padding + piece lies in [minPkt, maxPkt].
+//@ ghost var wfChunk Int
+//@ ghost var wfPad Int
+//@ ghost var wfFrames Int
+//@ hook after call (*geckoPacketConn).randomPadLen(g2, cl) (pl) in (*geckoPacketConn).writeFragmented
+//@   update wfChunk = cl
+//@   update wfPad = pl
+//@ hook call PacketConn.WriteTo(c2, b, a) in (*geckoPacketConn).writeFragmented
+//@   update wfFrames = wfFrames + 1
+//@ guard call encodeFrame(h, payload, out) in (*geckoPacketConn).writeFragmented
+//@   props C14
+//@   requires h.chunkIdx == i && h.totalChunks == chunks && h.msgID == msgID && h.padLen == wfPad
+//@   requires base(payload) == base(p) && off(payload) == off(p) + i * chunkSize && len(payload) == ite(i < chunks - 1, chunkSize, len(p) - i * chunkSize)
+//@   requires len(payload) == wfChunk && len(out) == 5 + wfPad + wfChunk
+//@ guard call PacketConn.WriteTo(c2, b, a) in (*geckoPacketConn).writeFragmented
+//@   props C14
+//@   requires a == addr && len(b) == 5 + wfPad + wfChunk && wfFrames == i
+//@   requires 13 + wfChunk <= g.maxPkt ==> g.minPkt <= 8 + len(b) && 8 + len(b) <= g.maxPkt
+//@ guard call PacketConn.WriteTo(c2, b, a) in (*geckoPacketConn).WriteTo
+//@   props C14
+//@   requires b == p && a == addr && p[0] < 128
+
+//@ func (*geckoPacketConn).writeFragmented
+//@   props C14 C03
+//@   nonil
+//@   requires len(p) <= 65535 && wfFrames == 0
+//@   ensures isnil(ret1) ==> ret0 == len(p) && wfFrames >= 2 && wfFrames <= 8
+//@   ensures !isnil(ret1) ==> ret0 == 0
+//@   modifies g.msgID, wfChunk, wfPad, wfFrames
+//@   loop 0
+//@     invariant wfFrames == i && 0 <= i && i <= chunks
+//@     invariant len(p) <= 65535 && g.inner != nil && 0 < g.minPkt && g.minPkt <= g.maxPkt && g.maxPkt <= 2048
+
+//@ func (*geckoPacketConn).WriteTo
+//@   props C14 C03
+//@   nonil
+//@   requires len(p) <= 65535 && wfFrames == 0
+//@   ensures len(p) == 0 ==> ret0 == 0 && isnil(ret1)
+//@   modifies g.msgID, wfChunk, wfPad, wfFrames
+
+// a new connection starts with an empty table (census row all zero) and a validated size range
+//@ hook store geckoPacketConn.reassembly(obj, v)
+//@   update census = updrow(census, obj, 0)
+//@ func newGeckoPacketConn
+//@   props C14 C03
+//@   requires !isnil(inner) && 0 < minPkt && minPkt <= maxPkt && maxPkt <= 2048
+//@   ensures ret != nil && fresh(ret) && tabOK(ret) && len(ret.reassembly) == 0 && ret.minPkt == minPkt && ret.maxPkt == maxPkt
+//@   modifies census
+//@ func WrapPacketConnGecko
+//@   props C14 C03
+//@   requires !isnil(conn)
+//@   ensures isnil(ret1) ==> !isnil(ret0)
+//@   ensures len(opts.Password) == 0 ==> !isnil(ret1)
+//@   ensures opts.MinPacketSize < 0 || opts.MaxPacketSize < 0 || opts.MaxPacketSize > 2048 || (opts.MinPacketSize > opts.MaxPacketSize && opts.MaxPacketSize != 0) ==> !isnil(ret1)
+//@   modifies census
+
+//@ structural C14: uses geckoPacketConn.reassembly in newGeckoPacketConn | (*geckoPacketConn).acceptChunk | (*geckoPacketConn).gcExpired | (*geckoPacketConn).dropEntryLocked | (*geckoPacketConn).evictOldestLocked
+//@ structural C14: uses geckoPacketConn.perSource in newGeckoPacketConn | (*geckoPacketConn).acceptChunk | (*geckoPacketConn).dropEntryLocked
